@@ -23,7 +23,7 @@ RULES = {
     "R5": "eq/hash agree: every cell read by __hash__ is compared by __eq__ (ArgsNamespace and RenderArgs); __hash__ contains no identity test (`is`, id()) while __eq__ compares by value",
     "R7": "derived sets carry what they were derived from: RenderArgs.update returns RenderArgs(self.render_cls, self, <all given namespaces, unfiltered>), "
           "RenderArgs.convert returns self only for the same class and otherwise a RenderArgs built from self's namespaces, ArgsNamespace.to_render_args returns "
-          "RenderArgs(<class>, self) - no shortcut bypasses the constructor's precedence and compatibility rules",
+          "RenderArgs(<class>, self) - no shortcut bypasses the constructor's precedence and compatibility rules; convert returns a set only on a path where issubclass between the two render classes holds",
     "R6": "namespace-class rules are enforced before the class exists: the metaclass raises precede super().__new__; association writes are "
           "preceded by the already-associated test; unknown fields are rejected before any store",
 }
@@ -406,5 +406,6 @@ MUTANTS = [
     M("to-render-args-no-self", TY, "ArgsNamespace.to_render_args", "return RenderArgs(render_cls or type(self)._RENDER_CLS, self)", "return RenderArgs(render_cls or type(self)._RENDER_CLS)", {"R7"}),
     M("hash-by-identity", TY, "RenderArgs.__hash__", "return hash((self.render_cls, tuple(self._namespaces.values())))", "return hash((self.render_cls, tuple(None if ns is self.render_cls._ALL_DEFAULT_ARGS[c] else ns for c, ns in self._namespaces.items())))", {"R5"}),
     M("set-class-in-table", TY, "ArgsNamespace.__or__", "            if issubclass(other_render_cls, self_render_cls):\n                return RenderArgs(other_render_cls, other, self)", "            if self_render_cls in other._namespaces:\n                return RenderArgs(other_render_cls, other, self)\n            if other.render_cls in self_render_cls._ALL_DEFAULT_ARGS:\n                return RenderArgs(self_render_cls, other, self)", {"R3"}),
+    M("convert-by-shared-namespace", TY, "RenderArgs.convert", "        if issubclass(self.render_cls, render_cls):\n", "        if issubclass(self.render_cls, render_cls) or any(c in render_cls._ALL_DEFAULT_ARGS for c in self._namespaces):\n", {"R7"}),
     M("twin-rename", TY, "RenderArgs.__init__", "namespaces_dict", "ns_dict", twin=True, count=0),
 ]
